@@ -442,6 +442,26 @@ fn faults(g: &mut Rng, u: &Upload, other: &Upload, every_offset: bool) -> Vec<(S
     let mut b = body.clone();
     b.extend_from_slice(b"garbage");
     with_body("garbage-after-final-chunk", "end", b, false);
+    // ... of assorted lengths (line buffers have sizes), with and without a line end, also looking like a chunk header
+    {
+        let n = *g.pick(&[1usize, 2, 16, 64, 127, 128, 129, 130, 200, 255, 256, 257, 1000, 4096, 5000, 70_000]);
+        let mut junk: Vec<u8> = match g.below(4) {
+            0 => vec![b'A'; n],
+            1 => g.bytes(n).into_iter().map(|x| if x == b'\n' || x == b'\r' { b'x' } else { x }).collect(),
+            2 => {
+                let mut v = format!("{:x};chunk-signature=", n).into_bytes();
+                v.extend(std::iter::repeat_n(b'0', n));
+                v
+            }
+            _ => g.bytes(n),
+        };
+        if g.chance(1, 4) {
+            junk.extend_from_slice(b"\r\n");
+        }
+        let mut b = u.req.body.clone();
+        b.extend_from_slice(&junk);
+        with_body("garbage-after-final-chunk", "end", b, false);
+    }
     let mut b = body.clone();
     b.extend_from_slice(b"\r\n");
     with_body("extra-crlf-after-final-chunk", "end", b, false);
